@@ -9,8 +9,10 @@ package main
 import (
 	"context"
 	"fmt"
+	"io"
 	"strconv"
 	"sync"
+	"sync/atomic"
 	"time"
 
 	"github.com/logrange/logrange/api"
@@ -22,6 +24,11 @@ import (
 type SelectCase struct {
 	N0     int      `json:"n0"`
 	Rounds [][2]int `json:"rounds"` // (before, during)
+	// NoPart: the partition does not exist when the stream starts (N0 = 0): the source expression of the first request(s)
+	// matches nothing, the cursor is the empty cursor; the first record appended creates the partition
+	NoPart bool `json:"nopart,omitempty"`
+	// Via: "" / "rpc" = through the rpc client (api/rpc ServerQuerier.query), "backend" = pkg/backend Querier.Query
+	Via string `json:"via,omitempty"`
 	Limit  int      `json:"limit"`  // batch size of the stream (0: 100; never below what a round appends: the model has no batch limit)
 }
 
@@ -42,6 +49,22 @@ func rpcClient(srv *Server) (*rpc.Client, error) {
 	}
 	rpcCli = cl
 	return cl, nil
+}
+
+// emptySpun: a waiting request over a source that matches nothing never returned (it spins in the server and cannot be
+// cancelled): no further request over an empty source is made in this run
+var emptySpun int32
+
+// backendQ adapts backend.Querier to api.Querier
+type backendQ struct{ srv *Server }
+
+func (b backendQ) Query(ctx context.Context, req *api.QueryRequest, res *api.QueryResult) error {
+	r, err := b.srv.Querier.Query(ctx, req)
+	if err != nil && (err != io.EOF || r == nil) {
+		return err
+	}
+	*res = *r
+	return nil
 }
 
 // gapQuerier forwards the stream's requests to the real client and plays the schedule around them
@@ -65,16 +88,25 @@ func (g *gapQuerier) Query(ctx context.Context, req *api.QueryRequest, res *api.
 	}
 	b, d := g.rounds[g.k][0], g.rounds[g.k][1]
 	g.k++
-	g.queries = append(g.queries, fmt.Sprintf("{id %d pos %q}", req.ReqId, req.Pos))
+	g.queries = append(g.queries, fmt.Sprintf("{id %d pos %q query %q}", req.ReqId, req.Pos, req.Query))
 	if b > 0 {
 		if err := writeN(g.srv, g.tags, g.total, b); err != nil {
 			g.err = err
 			return err
 		}
 		g.total += b
+		if g.src == "" { // the write created the partition
+			src, err := srcId(g.srv, g.tags)
+			if err != nil {
+				g.err = err
+				return err
+			}
+			g.src = src
+		}
 		syncSrc(g.srv, g.src)
 	}
 	var wg sync.WaitGroup
+	stop := make(chan struct{})
 	if d > 0 {
 		gt := &gate{arrived: make(chan struct{}, 1), release: make(chan struct{})}
 		gMu.Lock()
@@ -85,6 +117,7 @@ func (g *gapQuerier) Query(ctx context.Context, req *api.QueryRequest, res *api.
 			defer wg.Done()
 			select {
 			case <-gt.arrived: // the waiter goroutine of this request exists
+			case <-stop: // the request came back without having waited (an error, or an answer): the records are appended now, in the gap
 			case <-time.After(deadline):
 				g.err = fmt.Errorf("select case: the request of round %d did not start a wait", g.k)
 				return
@@ -98,6 +131,7 @@ func (g *gapQuerier) Query(ctx context.Context, req *api.QueryRequest, res *api.
 		}()
 	}
 	err := g.in.Query(ctx, req, res)
+	close(stop)
 	wg.Wait()
 	gMu.Lock()
 	delete(gates, g.src)
@@ -111,21 +145,53 @@ func (g *gapQuerier) Query(ctx context.Context, req *api.QueryRequest, res *api.
 func runSelect(srv *Server, sc SelectCase) (*Case, error) {
 	id := nextId("s")
 	tags := "sel=" + id
-	if err := writeN(srv, tags, 0, sc.N0); err != nil {
-		return nil, err
+	src := ""
+	exists := !sc.NoPart
+	for _, r := range sc.Rounds {
+		if r[1] > 0 && !exists {
+			return nil, fmt.Errorf("select case: records can be appended during a wait only once the partition exists")
+		}
+		exists = exists || r[0] > 0
 	}
-	src, err := srcId(srv, tags)
-	if err != nil {
-		return nil, err
+	if sc.NoPart {
+		if sc.N0 != 0 {
+			return nil, fmt.Errorf("select case: no partition, but n0 = %d", sc.N0)
+		}
+		if atomic.LoadInt32(&emptySpun) > 0 {
+			return nil, nil
+		}
+	} else {
+		if err := writeN(srv, tags, 0, sc.N0); err != nil {
+			return nil, err
+		}
+		var err error
+		if src, err = srcId(srv, tags); err != nil {
+			return nil, err
+		}
+		syncSrc(srv, src)
 	}
-	syncSrc(srv, src)
-	cl, err := rpcClient(srv)
-	if err != nil {
-		return nil, err
+	var in api.Querier
+	var err error
+	switch {
+	case sc.Via == "backend":
+		in = backendQ{srv}
+	case sc.NoPart:
+		// a connection of its own: a request that spins in the server blocks the read loop of its connection
+		cl, e := rpc.NewClient(transport.Config{ListenAddr: srv.Addr})
+		if e != nil {
+			return nil, e
+		}
+		defer func() { go cl.Close() }()
+		in = cl
+	default:
+		in, err = rpcClient(srv)
+		if err != nil {
+			return nil, err
+		}
 	}
 	ctx, cancel := context.WithCancel(context.Background())
 	defer cancel()
-	g := &gapQuerier{in: cl, srv: srv, tags: tags, src: src, rounds: sc.Rounds, total: sc.N0, cancel: cancel}
+	g := &gapQuerier{in: in, srv: srv, tags: tags, src: src, rounds: sc.Rounds, total: sc.N0, cancel: cancel}
 	for _, r := range sc.Rounds {
 		if r[0] > 0 && r[1] > 0 {
 			return nil, fmt.Errorf("select case: a round appends either in the gap or during the wait")
@@ -152,13 +218,32 @@ func runSelect(srv *Server, sc SelectCase) (*Case, error) {
 	select {
 	case err = <-done:
 	case <-time.After(deadline + time.Duration(2*len(sc.Rounds))*time.Second):
+		if sc.NoPart {
+			// a request over the empty source never returned: it spins between Get = EOF and WaitNewData (which answers at
+			// once) and ignores its context: a verdict; no further request of this kind is made
+			atomic.AddInt32(&emptySpun, 1)
+			cancel()
+			rs := make([]string, len(sc.Rounds))
+			for i, r := range sc.Rounds {
+				rs[i] = GPair(GNat(r[0]), GNat(r[1]))
+			}
+			return &Case{Coq: GApp("KSelect", GNat(0), GList(rs), "[]"), Replay: map[string]interface{}{"kind": "select", "select": sc}, NonTrivial: true,
+				Oracle: &Violation{Class: "reader-empty-source-spins", Detail: fmt.Sprintf("api.Select in stream mode (via %q) over a source expression that matches no partition, WaitTimeout 1 s: request %d (%v) did not return within %v: the stream is stuck (rounds %v)",
+					sc.Via, len(g.queries), g.queries, deadline+time.Duration(2*len(sc.Rounds))*time.Second, sc.Rounds)},
+				Stream: "select-empty", Key: "select/" + id}, nil
+		}
 		return nil, fmt.Errorf("select case: the stream did not end")
 	}
 	if g.err != nil {
 		return nil, g.err
 	}
+	var v *Violation
 	if err != nil && err != context.Canceled && ctx.Err() == nil {
-		return nil, fmt.Errorf("select case: %v", err)
+		if !sc.NoPart {
+			return nil, fmt.Errorf("select case: %v", err)
+		}
+		// the stream over the (formerly) empty source broke: e.g. the continuation request of an empty answer carried no query
+		v = &Violation{Class: "reader-empty-source-continuation-lost", Detail: fmt.Sprintf("api.Select in stream mode (via %q) over a source expression that matches no partition at first: the stream ended with the error %q after the requests %v (rounds %v)", sc.Via, err.Error(), g.queries, sc.Rounds)}
 	}
 	// expected: everything appended after the first request was resolved
 	p0 := sc.N0 + sc.Rounds[0][0]
@@ -166,8 +251,7 @@ func runSelect(srv *Server, sc SelectCase) (*Case, error) {
 	for i := p0; i < g.total; i++ {
 		want = append(want, i)
 	}
-	var v *Violation
-	if fmt.Sprint(got) != fmt.Sprint(want) {
+	if v == nil && fmt.Sprint(got) != fmt.Sprint(want) {
 		v = &Violation{Class: "select-stream-skips-events", Detail: fmt.Sprintf("api.Select in stream mode from tail over %d records, rounds (appended in the gap before the request, while it waits) %v: the handler received %v, appended after the first request: %v; requests sent: %v",
 			sc.N0, sc.Rounds, got, want, g.queries)}
 	}
@@ -180,8 +264,8 @@ func runSelect(srv *Server, sc SelectCase) (*Case, error) {
 		}
 	}
 	return &Case{Coq: GApp("KSelect", GNat(sc.N0), GList(rs), GListNat(got)), Replay: map[string]interface{}{"kind": "select", "select": sc},
-		NonTrivial: empty > 0 && g.total > p0, Oracle: v, Stream: "select", Key: "select/" + id,
-		Tags: []string{fmt.Sprintf("select-empty-rounds:%d", empty)}}, nil
+		NonTrivial: empty > 0 && g.total > p0, Oracle: v, Stream: map[bool]string{false: "select", true: "select-empty"}[sc.NoPart], Key: "select/" + id,
+		Tags: []string{fmt.Sprintf("select-empty-rounds:%d", empty), "select-via:" + map[string]string{"": "rpc", "rpc": "rpc", "backend": "backend"}[sc.Via]}}, nil
 }
 
 // genSelect: 2..4 rounds, each empty (about two at most: each costs the 1 s time-out), or with 1-2 records appended in the
@@ -206,4 +290,58 @@ func genSelect(r *Rng) SelectCase {
 		sc.Rounds = append(sc.Rounds, rd)
 	}
 	return sc
+}
+
+// runEmpty: one waiting request (WaitTimeout 1 s) over a source expression that matches no partition, nothing is written.
+// It must return, empty, and its continuation request must carry the query.
+func runEmpty(srv *Server, via string) (*Case, error) {
+	if atomic.LoadInt32(&emptySpun) > 0 {
+		return nil, nil
+	}
+	id := nextId("e")
+	q := "SELECT FROM nosuch=" + id
+	var in api.Querier = backendQ{srv}
+	if via != "backend" {
+		cl, err := rpc.NewClient(transport.Config{ListenAddr: srv.Addr})
+		if err != nil {
+			return nil, err
+		}
+		defer func() { go cl.Close() }()
+		in = cl
+	}
+	type ans struct {
+		res api.QueryResult
+		err error
+		dur time.Duration
+	}
+	ch := make(chan ans, 1)
+	ctx, cancel := context.WithCancel(context.Background())
+	defer cancel()
+	go func() {
+		var a ans
+		t0 := time.Now()
+		a.err = in.Query(ctx, &api.QueryRequest{Query: q, Limit: 10, WaitTimeout: 1}, &a.res)
+		a.dur = time.Since(t0)
+		ch <- a
+	}()
+	cs := &Case{Replay: map[string]interface{}{"kind": "empty", "via": via}, NonTrivial: true, Stream: "empty", Key: "empty/" + id, Tags: []string{"empty-via:" + via}}
+	select {
+	case a := <-ch:
+		if a.err != nil {
+			return nil, fmt.Errorf("empty case: %v", a.err)
+		}
+		cont := a.res.NextQueryRequest.Query != ""
+		cs.Coq = GApp("KEmpty", "true", GNat(len(a.res.Events)), GBool(cont))
+		switch {
+		case len(a.res.Events) != 0:
+			cs.Oracle = &Violation{Class: "reader-returned-unwritten", Detail: fmt.Sprintf("%s (via %s) matches no partition, the request returned %d events", q, via, len(a.res.Events))}
+		case !cont:
+			cs.Oracle = &Violation{Class: "reader-empty-source-continuation-lost", Detail: fmt.Sprintf("%s (via %s) matches no partition: the answer's continuation request carries no query (%+v): a stream reader cannot go on", q, via, a.res.NextQueryRequest)}
+		}
+	case <-time.After(deadline + time.Second):
+		atomic.AddInt32(&emptySpun, 1)
+		cs.Coq = GApp("KEmpty", "false", GNat(0), "false")
+		cs.Oracle = &Violation{Class: "reader-empty-source-spins", Detail: fmt.Sprintf("%s (via %s) matches no partition: the request with WaitTimeout 1 s did not return within %v", q, via, deadline+time.Second)}
+	}
+	return cs, nil
 }
